@@ -1,43 +1,46 @@
 (* C19 — A job group on disk always matches the group in memory.
    Model: Model/JobGroup.v (memory = job records, disk = JSON image, server = script of answers, operations with the
-   write points of the code). `Exact m` : the file is exactly the image of memory (save (mem m) = Some (disk m));
+   write points of the code). Configuration `cur` = the code as it is now (after the repairs bf317fcd: _from_dict
+   restores job_context, and 13320b52: add validates before the append); `old` = before them (historical witnesses).
+   `Exact m` : the file is exactly the image of memory (save (mem m) = Some (disk m));
    `reload_equiv m` : re-opening the group yields the same observable list (identifier, status if sent, metadata,
    request body unless successful); `skeleton m` : identifiers and metadata on disk are those of memory;
-   `op_ok` : jobs without job_context / mapping parameters and no max_samples left unfilled; `quiet` : no operation
-   raised the model's ghost flag "a status changed inside a launch loop and no write followed".
+   `quiet` : no operation raised the model's ghost flag "a status changed inside a launch loop and no write followed".
+   There is no admissibility condition on the jobs any more (job_context, delta parameters, keywords: all covered).
 
-   The full statement   forall ops sc, reload_equiv (run (init sc) ops)   is FALSE of the faithful model; the four
-   `_refuted` theorems are its counterexamples (each replays on the implementation, see known_findings.json). *)
+   The full statement   forall ops sc, reload_equiv (run cur (init sc) ops)   is still FALSE of the faithful model of
+   the current code, because of the open launch-loop finding: `_refuted_rerun_loop` and `_refuted_sequential_wait`
+   are its counterexamples (they replay on the implementation, see known_findings.json). *)
 From PV Require Import Model.JobGroup Proofs.JobGroupP.
 Require Import List ZArith.
 Import ListNotations.
 
 Theorem C19_disk_matches_memory_partial : forall sc ops1 ops2,
-  Forall op_ok (ops1 ++ ops2) -> quiet (init sc) (ops1 ++ ops2) ->
-  Exact (run (init sc) ops1) /\ reload_equiv (run (init sc) ops1).
+  quiet (init sc) (ops1 ++ ops2) ->
+  Exact (run cur (init sc) ops1) /\ reload_equiv (run cur (init sc) ops1).
 Proof. exact disk_matches_memory_partial. Qed.
 Print Assumptions C19_disk_matches_memory_partial.
 
 Theorem C19_disk_matches_memory_calm_operations : forall sc ops,
-  Forall op_ok ops -> Forall calm_op ops -> Exact (run (init sc) ops) /\ reload_equiv (run (init sc) ops).
+  Forall calm_op ops -> Exact (run cur (init sc) ops) /\ reload_equiv (run cur (init sc) ops).
 Proof. exact disk_matches_memory_calm. Qed.
 Print Assumptions C19_disk_matches_memory_calm_operations.
 
 Theorem C19_every_operation_preserves : forall ex m o m' out,
-  Forall good (mem m) -> skeleton m -> DiskOk (disk m) -> (ex = true -> Exact m) -> op_ok o -> step m o = (m', out) ->
+  Forall good (mem m) -> skeleton m -> DiskOk (disk m) -> (ex = true -> Exact m) -> step cur m o = (m', out) ->
   Forall good (mem m') /\ skeleton m' /\ DiskOk (disk m') /\ (ex = true -> udirty m' = false -> Exact m').
 Proof. exact step_inv. Qed.
 Print Assumptions C19_every_operation_preserves.
 
-Theorem C19_accepted_ids_survive : forall sc ops, Forall op_ok ops ->
-  skeleton (run (init sc) ops) /\ Exact (fst (step (run (init sc) ops) OReopen)).
+Theorem C19_accepted_ids_survive : forall sc ops,
+  skeleton (run cur (init sc) ops) /\ Exact (fst (step cur (run cur (init sc) ops) OReopen)).
 Proof. exact accepted_ids_survive. Qed.
 Print Assumptions C19_accepted_ids_survive.
 
 Theorem C19_request_same_after_reopen : forall sc ops1 ops2,
-  Forall op_ok (ops1 ++ ops2) -> quiet (init sc) (ops1 ++ ops2) ->
-  let m := run (init sc) ops1 in
-  Forall2 (fun j j' => jid j' = jid j /\ (success (jst j) = false -> eff_body j' = eff_body j)) (mem m) (load (disk m)).
+  quiet (init sc) (ops1 ++ ops2) ->
+  let m := run cur (init sc) ops1 in
+  Forall2 (fun j j' => jid j' = jid j /\ (success (jst j) = false -> eff_body j' = eff_body j)) (mem m) (load cur (disk m)).
 Proof. exact request_same_after_reopen. Qed.
 Print Assumptions C19_request_same_after_reopen.
 
@@ -56,46 +59,61 @@ Proof. exact progress_categories. Qed.
 Print Assumptions C19_progress_categories.
 
 Theorem C19_no_duplicate_id : forall m j i kms kbad,
-  jid j = Some i -> In (Some i) (map jid (mem m)) -> add_job m j kms kbad = (m, Raised E_DUP).
+  jid j = Some i -> In (Some i) (map jid (mem m)) -> add_job cur m j kms kbad = (m, Raised E_DUP).
 Proof. exact no_duplicate_id. Qed.
 Print Assumptions C19_no_duplicate_id.
 
 Theorem C19_add_appends_once : forall m j kms kbad m',
-  add_job m j kms kbad = (m', Returned) -> exists j', mem m' = mem m ++ [j'] /\ jid j' = jid j.
+  add_job cur m j kms kbad = (m', Returned) -> exists j', mem m' = mem m ++ [j'] /\ jid j' = jid j.
 Proof. exact add_appends_once. Qed.
 Print Assumptions C19_add_appends_once.
 
-(* counterexamples to the full statement *)
-Theorem C19_disk_matches_memory_refuted_context : exists ops sc, ~ reload_equiv (run (init sc) ops).
-Proof. exact disk_matches_memory_refuted_context. Qed.
-Print Assumptions C19_disk_matches_memory_refuted_context.
+Theorem C19_add_raises_changes_nothing : forall m j kms kbad m' e,
+  Forall good (mem m) -> jwf j -> add_job cur m j kms kbad = (m', Raised e) -> m' = m.
+Proof. exact add_raises_changes_nothing. Qed.
+Print Assumptions C19_add_raises_changes_nothing.
 
-Theorem C19_disk_matches_memory_refuted_unfilled :
-  exists ops sc, snd (step (init sc) (hd OReopen ops)) = Raised E_TYPE /\ ~ reload_equiv (run (init sc) ops).
-Proof. exact disk_matches_memory_refuted_unfilled. Qed.
-Print Assumptions C19_disk_matches_memory_refuted_unfilled.
-
+(* counterexamples to the full statement on the CURRENT code (open finding launch-loop-status-change-not-written) *)
 Theorem C19_disk_matches_memory_refuted_rerun_loop :
-  exists ops sc, Forall op_ok ops /\ snd (step (run (init sc) (removelast ops)) (last ops OReopen)) = Returned /\
-                 ~ reload_equiv (run (init sc) ops).
+  exists ops sc, snd (step cur (run cur (init sc) (removelast ops)) (last ops OReopen)) = Returned /\
+                 ~ reload_equiv (run cur (init sc) ops).
 Proof. exact disk_matches_memory_refuted_rerun_loop. Qed.
 Print Assumptions C19_disk_matches_memory_refuted_rerun_loop.
 
 Theorem C19_disk_matches_memory_refuted_sequential_wait :
-  exists ops sc, Forall op_ok ops /\ snd (step (run (init sc) (removelast ops)) (last ops OReopen)) = Raised E_HTTP /\
-                 ~ reload_equiv (run (init sc) ops).
+  exists ops sc, snd (step cur (run cur (init sc) (removelast ops)) (last ops OReopen)) = Raised E_HTTP /\
+                 ~ reload_equiv (run cur (init sc) ops).
 Proof. exact disk_matches_memory_refuted_sequential_wait. Qed.
 Print Assumptions C19_disk_matches_memory_refuted_sequential_wait.
 
-Theorem C19_request_same_after_reopen_refuted :
-  exists s sc, rlog (run (init sc) [OAdd s false None false; ORun false]) <>
-               rlog (run (init sc) [OAdd s false None false; OReopen; ORun false]).
-Proof. exact request_same_after_reopen_refuted. Qed.
-Print Assumptions C19_request_same_after_reopen_refuted.
+(* HISTORICAL counterexamples, about the code before bf317fcd / 13320b52 (configuration `old`) *)
+Theorem C19_disk_matches_memory_refuted_context_old_code : exists ops sc, ~ reload_equiv_old (run old (init sc) ops).
+Proof. exact disk_matches_memory_refuted_context_old_code. Qed.
+Print Assumptions C19_disk_matches_memory_refuted_context_old_code.
 
-(* the hypotheses of the partial theorems are satisfiable (a 10-operation history with a refusal, a re-run, a
-   re-open and a sequential launch) *)
+Theorem C19_disk_matches_memory_refuted_unfilled_old_code :
+  exists ops sc, snd (step old (init sc) (hd OReopen ops)) = Raised E_TYPE /\ ~ reload_equiv_old (run old (init sc) ops).
+Proof. exact disk_matches_memory_refuted_unfilled_old_code. Qed.
+Print Assumptions C19_disk_matches_memory_refuted_unfilled_old_code.
+
+Theorem C19_request_same_after_reopen_refuted_old_code :
+  exists s sc, rlog (run old (init sc) [OAdd s false None false; ORun false]) <>
+               rlog (run old (init sc) [OAdd s false None false; OReopen; ORun false]).
+Proof. exact request_same_after_reopen_refuted_old_code. Qed.
+Print Assumptions C19_request_same_after_reopen_refuted_old_code.
+
+(* ... and the same three histories satisfy the property on the current code *)
+Theorem C19_repaired_witnesses :
+  reload_equiv (run cur (init []) [OAdd sp_ctx false None false]) /\
+  step cur (init []) (OAdd sp_unfilled false None false) = (init [], Raised E_TYPE) /\
+  rlog (run cur (init [AOk 10 WAITING]) [OAdd sp_ctx false None false; ORun false]) =
+  rlog (run cur (init [AOk 10 WAITING]) [OAdd sp_ctx false None false; OReopen; ORun false]).
+Proof. exact repaired_witnesses. Qed.
+Print Assumptions C19_repaired_witnesses.
+
+(* the hypothesis of the partial theorems is satisfiable (a 10-operation history with a job_context job, a keyword
+   fill, a refusal, a re-run, a re-open and a sequential launch) *)
 Theorem C19_hypotheses_satisfiable :
-  exists ops sc, Forall op_ok ops /\ quiet (init sc) ops /\ length (mem (run (init sc) ops)) = 2%nat.
+  exists ops sc, quiet (init sc) ops /\ length (mem (run cur (init sc) ops)) = 2%nat.
 Proof. eexists _, _. exact hypotheses_satisfiable. Qed.
 Print Assumptions C19_hypotheses_satisfiable.
